@@ -198,7 +198,53 @@ def parse_recycler():
         raise TieBroken("recycle: visit_closure follows shadowed values but recycle does not record them")
     if keeps and not follow:
         follow = False
-    return scanned, header, bool(follow)
+    return scanned, header, bool(follow), parse_marks(src, impl, rec)
+
+
+def parse_marks(src, impl, rec):
+    """Does the recycler's walk start from cleared heap mark bits?  (The mark bit `reachable` is the visited set of
+    mark_heap_reference / mark_heap_vector, and it is set on every allocated cell.)"""
+    # the recycler visits boxes and mutable vectors through the marking context
+    for fn, callee in (("visit_heap_allocated", "mark_heap_reference"), ("visit_mutable_vector", "mark_heap_vector")):
+        b = fn_body(impl, r"fn %s\s*\(" % fn, "GlobalSlotRecycler::%s" % fn)
+        if not re.search(r"queue:\s*&mut self\.queue", b) or not re.search(r"queue\.%s\(" % callee, b):
+            raise TieBroken("%s: no longer visits the cell through %s on the recycler's own queue" % (fn, callee))
+    m = re.search(r"impl<'a>\s+MarkAndSweepContext<'a>\s*\{", src)
+    if not m:
+        raise TieBroken("closed.rs: impl MarkAndSweepContext not found")
+    ctx = src[m.end() - 1:balanced(src, m.end() - 1)]
+    for fn in ("mark_heap_reference", "mark_heap_vector"):
+        b = fn_body(ctx, r"fn %s\s*\(" % fn, "MarkAndSweepContext::%s" % fn)
+        if not re.search(r"if\s+guard\.is_reachable\(\)\s*\{\s*return;\s*\}\s*guard\.mark_reachable\(\);", b) or "push_back" not in b:
+            raise TieBroken("%s: expected `if is_reachable { return } mark_reachable; push contents`" % fn)
+    if not re.search(r"pub\(crate\) fn reset\(&mut self\)\s*\{\s*self\.reachable\s*=\s*false;", src):
+        raise TieBroken("HeapAllocated::reset: shape changed")
+    before = rec[:rec.find("self.visit();")]
+    after = rec[rec.find("self.visit();"):]
+    lists = ("memory_free_list", "vector_free_list")
+    if all(re.search(r"heap\.%s\.take_marks\(\)" % l, before) for l in lists):
+        if not all(re.search(r"heap\.%s\.restore_marks\(" % l, after) for l in lists):
+            raise TieBroken("recycle: marks are taken but not restored")
+        bodies = [mm.end() for mm in re.finditer(r"fn take_marks\(&mut self\)\s*->\s*Vec<bool>\s*", src)]
+        if len(bodies) < 1:
+            raise TieBroken("take_marks: definition not found")
+        clears = []
+        for pos in bodies:
+            b = src[pos:balanced(src, pos)]
+            if re.search(r"\.map\(\|x\|\s*core::mem::replace\(&mut x\.write\(\)\.reachable,\s*false\)\)", b):
+                clears.append(True)
+            elif not re.search(r"reachable\s*=|replace\(|reset\(\)|mark_reachable", b):
+                clears.append(False)            # reads the bits without clearing them
+            else:
+                raise TieBroken("take_marks: cannot tell whether the mark bits are cleared")
+        return all(clears)
+    if all(re.search(r"heap\.%s\.mark_all_unreachable\(\)" % l, before) for l in lists):
+        if len(re.findall(r"fn mark_all_unreachable\(&mut self\)\s*\{\s*self\.elements\.iter_mut\(\)\.for_each\(\|x\|\s*x\.write\(\)\.reset\(\)\);", src)) < 1:
+            raise TieBroken("mark_all_unreachable: shape changed")
+        return True
+    if re.search(r"take_marks|mark_all_unreachable|reachable|reset\(\)", before):
+        raise TieBroken("recycle: cannot tell whether the mark bits are cleared before the walk")
+    return False
 
 
 def parse_map():
@@ -290,7 +336,7 @@ def generate():
     """Returns (coq_text, facts dict)."""
     ops = parse_opcodes()
     define_ops, interned = parse_interner()
-    scanned, header, follow = parse_recycler()
+    scanned, header, follow, clears = parse_recycler()
     consts = parse_map()
     snapshot = parse_engine()
     jit_op = parse_jit()
@@ -343,6 +389,8 @@ def generate():
     L.append("Definition scan_uses_header : bool := %s." % b(header))
     L.append("(* a candidate slot found referenced has its stored value visited too *)")
     L.append("Definition scan_follows_shadowed : bool := %s." % b(follow))
+    L.append("(* closed.rs recycle: take_marks clears the mark bits (the visited set of the walk) before visit() *)")
+    L.append("Definition scan_clears_marks : bool := %s." % b(clears))
     L.append("(* engine.rs raw_program_to_executable: failed build restores a snapshot (true) / truncates with roll_back (false) *)")
     L.append("Definition rollback_snapshot : bool := %s." % b(snapshot))
     L.append("(* jit.rs jit_compile_lambda: op code written over instruction 0 *)")
@@ -356,7 +404,8 @@ def generate():
     L.append("Definition epoch_reset : nat := %d." % consts["epoch_reset"])
     L.append("")
     facts = {"opcodes": len(ops), "define_ops": define_ops, "interned_ops": interned, "scanned_ops": scanned,
-             "scan_uses_header": header, "scan_follows_shadowed": follow, "rollback_snapshot": snapshot,
+             "scan_uses_header": header, "scan_follows_shadowed": follow, "scan_clears_marks": clears,
+             "rollback_snapshot": snapshot,
              "jit_entry_op": jit_op, "constants": consts}
     return "\n".join(L), facts
 
@@ -367,16 +416,21 @@ def generate():
 #
 # unit  = {"x": bool, "forms": [form]}           x: the unit is rejected before the build (expander error)
 # form  = ["def", name, expr] | ["expr", expr]
-# expr  = ["const", n] | ["glob", name] | ["lam", arity, [item], cap_expr|None] | ["pair", a, b] | ["car", e]
-#       | ["cdr", e] | ["call", fexpr, arg, thunk?] | ["set", name, expr] | ["fail"]
-# item  = ["read", name] | ["set", name, imm] | ["call", name, imm, thunk?] | ["cap", imm] | ["pad", OP, n]
+# expr  = ["const", n] | ["glob", name] | ["lam", arity, [item], cap_expr|None, hc?] | ["pair", a, b] | ["car", e]
+#       | ["cdr", e] | ["call", fexpr, arg, thunk?] | ["set", name, expr] | ["fail"] | ["list", [expr]]
+#       | ["box", e] | ["vec", e] | ["struct", e]            holders: (box e) (vector e) (c06holder e)
+#       | ["unbox", e] | ["vref", e] | ["sref", e]           (unbox e) (vector-ref e 0) (c06holder-f e)
+#       | ["setcell", vec?, cell_expr, e]                    (set-box! c e) / (vector-set! c 0 e), yields 0
+#         hc: the captured variable is assigned in the body, so it is heap allocated and the closure captures the cell
+# item  = ["read", name] | ["set", name, imm] | ["call", name, imm, thunk?] | ["cap", imm, path?] | ["pad", OP, n]
+#         path: accessors ("unbox" | "vref" | "sref") leading from the captured value to the procedure it holds
 #         (imm: int or None = the closure's argument; thunks only have int operands)
 # Every function body is (list item ...), so a call yields the list of what its items yielded.
 
 import json
 import os
 
-PRELUDE = "(define (c06-use c v) (if (procedure? c) (c v) c))"
+PRELUDE = "(define (c06-use c v) (if (procedure? c) (c v) c))\n;;;;\n(struct c06holder (f))"
 EXPAND_FAIL_FORM = "(if)"
 
 
@@ -389,8 +443,22 @@ def steel_item(it):
     if k == "call":
         return "(%s)" % it[1] if it[3] else "(%s %s)" % (it[1], "v" if it[2] is None else it[2])
     if k == "cap":
-        return "(c06-use c %s)" % ("v" if it[1] is None else it[1])
+        a = "v" if it[1] is None else it[1]
+        path = it[2] if len(it) > 2 else None
+        if not path:
+            return "(c06-use c %s)" % a
+        return "(%s %s)" % (steel_access(path, "c"), a)
     return None
+
+
+ACCESSOR = {"unbox": "(unbox %s)", "vref": "(vector-ref %s 0)", "sref": "(c06holder-f %s)"}
+HOLDER_ACCESS = {"box": "unbox", "vec": "vref", "struct": "sref"}
+
+
+def steel_access(path, base):
+    for a in path:
+        base = ACCESSOR[a] % base
+    return base
 
 
 def steel_expr(e):
@@ -401,7 +469,8 @@ def steel_expr(e):
         return e[1]
     if k == "lam":
         items = " ".join(x for x in (steel_item(i) for i in e[2]) if x is not None)
-        lam = "(lambda (%s) (list %s))" % ("v" if e[1] == 1 else "", items)
+        hc = len(e) > 4 and e[4]
+        lam = "(lambda (%s) %s(list %s))" % ("v" if e[1] == 1 else "", "(set! c c) " if hc else "", items)
         if e[3] is not None:
             return "(let ((c %s)) %s)" % (steel_expr(e[3]), lam)
         return lam
@@ -419,6 +488,16 @@ def steel_expr(e):
         return "(set! %s %s)" % (e[1], steel_expr(e[2]))
     if k == "fail":
         return '(error "c06")'
+    if k == "box":
+        return "(box %s)" % steel_expr(e[1])
+    if k == "vec":
+        return "(vector %s)" % steel_expr(e[1])
+    if k == "struct":
+        return "(c06holder %s)" % steel_expr(e[1])
+    if k in ACCESSOR:
+        return ACCESSOR[k] % steel_expr(e[1])
+    if k == "setcell":
+        return ("(begin (vector-set! %s 0 %s) 0)" if e[1] else "(begin (set-box! %s %s) 0)") % (steel_expr(e[2]), steel_expr(e[3]))
     raise ValueError(e)
 
 
@@ -476,7 +555,9 @@ def coq_expr(e, nm, jit):
         return "EGlobal %s" % nm(e[1])
     if k == "lam":
         cap = "EConst 0" if e[3] is None else coq_expr(e[3], nm, jit)
-        return "ELam %s [%s] (%s)" % ("true" if jit else "false", "; ".join(coq_item(i, nm) for i in e[2]), cap)
+        hc = len(e) > 4 and e[4]
+        return "ELam %s %s [%s] (%s)" % ("true" if jit else "false", "true" if hc else "false",
+                                         "; ".join(coq_item(i, nm) for i in e[2]), cap)
     if k == "pair":
         return "EPair (%s) (%s)" % (coq_expr(e[1], nm, jit), coq_expr(e[2], nm, jit))
     if k == "list":
@@ -494,6 +575,20 @@ def coq_expr(e, nm, jit):
         return "ESet %s (%s)" % (nm(e[1]), coq_expr(e[2], nm, jit))
     if k == "fail":
         return "EFail"
+    if k == "box":
+        return "EBox false (%s)" % coq_expr(e[1], nm, jit)
+    if k == "vec":
+        return "EBox true (%s)" % coq_expr(e[1], nm, jit)
+    if k == "struct":
+        return "EPair (%s) ENil" % coq_expr(e[1], nm, jit)
+    if k == "unbox":
+        return "EUnbox (%s)" % coq_expr(e[1], nm, jit)
+    if k == "vref":
+        return "ECar (EUnbox (%s))" % coq_expr(e[1], nm, jit)
+    if k == "sref":
+        return "ECar (%s)" % coq_expr(e[1], nm, jit)
+    if k == "setcell":
+        return "ESetCell %s (%s) (%s)" % ("true" if e[1] else "false", coq_expr(e[2], nm, jit), coq_expr(e[3], nm, jit))
     raise ValueError(e)
 
 
@@ -543,6 +638,25 @@ class Clo:
     __slots__ = ("arity", "items", "cap", "unit")
 
 
+class Cell:
+    """a heap cell: box, one-element mutable vector (val = (x, ())), or an assigned captured variable"""
+    __slots__ = ("val",)
+
+    def __init__(self, v):
+        self.val = v
+
+
+def dig(v):
+    """look through holders: cell -> contents, one-field vector / struct -> the field"""
+    while True:
+        if isinstance(v, Cell):
+            v = v.val
+        elif isinstance(v, tuple) and v != ():
+            v = v[0]
+        else:
+            return v
+
+
 class RunError(Exception):
     pass
 
@@ -564,6 +678,8 @@ def render_val(v):
         return "#<void>"
     if isinstance(v, Clo):
         return "#<procedure>"
+    if isinstance(v, Cell):
+        return "#<cell>"
     if v == ():
         return "()"
     if proper(v):
@@ -609,7 +725,11 @@ class Oracle:
             c.items = [self._res_item(i, env) for i in e[2]]
             c.unit = self.unit_no
             cap = None if e[3] is None else self._res_expr(e[3], env, defs, passed)
-            return ("lamr", c, cap)
+            return ("lamr", c, cap, len(e) > 4 and e[4])
+        if k in ("box", "vec", "struct", "unbox", "vref", "sref"):
+            return (k, self._res_expr(e[1], env, defs, passed))
+        if k == "setcell":
+            return ("setcell", e[1], self._res_expr(e[2], env, defs, passed), self._res_expr(e[3], env, defs, passed))
         if k == "pair":
             return ("pair", self._res_expr(e[1], env, defs, passed), self._res_expr(e[2], env, defs, passed))
         if k == "list":
@@ -637,7 +757,8 @@ class Oracle:
             if k == "pad":
                 continue
             if k == "cap":
-                out.append(self.call(f.cap, a, depth + 1) if isinstance(f.cap, Clo) else f.cap)
+                d = dig(f.cap)
+                out.append(self.call(d, a, depth + 1) if isinstance(d, Clo) else d)
                 continue
             if b.val is UNASSIGNED:
                 raise Unassigned()
@@ -672,7 +793,37 @@ class Oracle:
             c = Clo()
             c.arity, c.items, c.unit = proto.arity, proto.items, proto.unit
             c.cap = None if e[2] is None else self.eval(e[2])
+            if e[3]:
+                c.cap = Cell(c.cap if c.cap is not None else 0)
             return c
+        if k == "box":
+            return Cell(self.eval(e[1]))
+        if k == "vec":
+            return Cell((self.eval(e[1]), ()))
+        if k == "struct":
+            return (self.eval(e[1]), ())
+        if k == "unbox":
+            v = self.eval(e[1])
+            if not isinstance(v, Cell):
+                raise RunError("unbox")
+            return v.val
+        if k == "vref":
+            v = self.eval(e[1])
+            if not (isinstance(v, Cell) and isinstance(v.val, tuple) and v.val != ()):
+                raise RunError("vector-ref")
+            return v.val[0]
+        if k == "sref":
+            v = self.eval(e[1])
+            if not (isinstance(v, tuple) and v != ()):
+                raise RunError("struct-ref")
+            return v[0]
+        if k == "setcell":
+            c = self.eval(e[2])
+            if not isinstance(c, Cell):
+                raise RunError("set-cell")
+            v = self.eval(e[3])
+            c.val = (v, ()) if e[1] else v
+            return 0
         if k == "pair":
             a = self.eval(e[1])
             return (a, self.eval(e[2]))
@@ -774,15 +925,18 @@ def names_depth0(e):
         for x in e[1]:
             out |= names_depth0(x)
         return out
-    if k in ("car", "cdr", "call"):
+    if k in ("car", "cdr", "call", "box", "vec", "struct", "unbox", "vref", "sref"):
         return names_depth0(e[1])
     if k == "set":
         return {e[1]} | names_depth0(e[2])
+    if k == "setcell":
+        return names_depth0(e[2]) | names_depth0(e[3])
     return set()
 
 
 MAXLEVEL = 5
-POOLS = {"x": 12, "f": 10, "t": 6, "p": 4, "j": 8}     # vars, unary functions, thunks, pairs, junk vars
+POOLS = {"x": 12, "f": 10, "t": 6, "p": 4, "j": 8, "b": 8}     # vars, unary functions, thunks, pairs, junk vars, holders
+MUTABLE = ("box", "vec")
 
 
 class Gen:
@@ -794,12 +948,15 @@ class Gen:
         self.h = []
         self.expect = []
         self.level = {}           # binding id -> level of the functions stored in it
+        self.hpath = {}           # binding id of a holder -> its shape (holder kinds, outermost first)
+        self.unit_paths = {}      # holder names defined by the unit under construction -> shape
         self.fresh = 0
         self.undef = 0
         self.dead = False         # oracle left the envelope (unassigned read)
         self.stats = {"define": 0, "redefine": 0, "set_top": 0, "fail_expand": 0, "fail_freeid": 0,
                       "fail_selfref": 0, "fail_runtime": 0, "probe": 0, "same_unit_ref": 0, "capture": 0,
-                      "first_instr_global": 0, "setter": 0, "units": 0}
+                      "first_instr_global": 0, "setter": 0, "units": 0, "holder_define": 0, "holder_call": 0,
+                      "holder_assign": 0, "holder_capture": 0, "heap_captured_var": 0, "holder_literal_closure": 0}
 
     # ---- helpers over the oracle's current environment
     def assigned(self, kind, env=None):
@@ -820,6 +977,27 @@ class Gen:
         if name in local:
             return local[name][1]
         return self.level.get(self.o.env[name].id, 0)
+
+    def holders(self, local=()):
+        """assigned holder names (not redefined by the unit under construction) -> (shape, level)"""
+        out = {}
+        for n in self.assigned("b"):
+            b = self.o.env[n]
+            if n not in local and b.id in self.hpath:
+                out[n] = (self.hpath[b.id], self.level.get(b.id, 0))
+        return out
+
+    @staticmethod
+    def access(path, base):
+        for k in path:
+            base = [HOLDER_ACCESS[k], base]
+        return base
+
+    @staticmethod
+    def wrap(path, leaf):
+        for k in reversed(path):
+            leaf = [k, leaf]
+        return leaf
 
     def gen_lambda(self, arity, local, maxlevel, force_first_global=False, allow_cap=True, defining=None):
         """local: names defined earlier in the unit under construction -> (kind, level).
@@ -866,7 +1044,19 @@ class Gen:
             elif vars_:
                 items.insert(0, ["read", rng.choice(vars_)])
         cap = None
-        if allow_cap and rng.random() < 0.12:
+        hc = False
+        hold = {n: pl for n, pl in self.holders(local).items() if pl[1] < maxlevel and n != defining}
+        if allow_cap and hold and rng.random() < 0.10:
+            n = rng.choice(sorted(hold))
+            path, l = hold[n]
+            cap = ["glob", n]
+            lev = max(lev, l + 1)
+            items.append(["cap", rng.randrange(1000) if (arity == 0 or rng.random() < 0.3) else None,
+                          [HOLDER_ACCESS[k] for k in path]])
+            hc = rng.random() < 0.5
+            self.stats["holder_capture"] += 1
+        elif allow_cap and rng.random() < 0.12:
+            hc = rng.random() < 0.4
             if funs and rng.random() < 0.6:
                 n, l = rng.choice(funs)
                 if n not in local:
@@ -885,7 +1075,11 @@ class Gen:
             self.stats["first_instr_global"] += 1
         if any(i[0] in ("read", "set", "call") and i[1] in local for i in items):
             self.stats["same_unit_ref"] += 1
-        return ["lam", arity, items, cap], lev
+        if cap is None:
+            hc = False
+        if hc:
+            self.stats["heap_captured_var"] += 1
+        return ["lam", arity, items, cap, hc], lev
 
     def gen_value_expr(self, kind, local, defining=None):
         rng = self.rng
@@ -895,17 +1089,48 @@ class Gen:
             fs = [n for n in self.assigned("f") if n not in local and n != defining]
             a = ["glob", rng.choice(fs)] if fs and rng.random() < 0.8 else ["const", rng.randrange(1000)]
             return ["pair", a, ["const", rng.randrange(1000)]], 0
+        if kind == "b":
+            path = [rng.choice(["box", "box", "vec", "vec", "struct"]) for _ in range(rng.choice([1, 1, 2, 3]))]
+            fs = [n for n in self.assigned("f") if n not in local and n != defining and self.lvl(n, local) < MAXLEVEL]
+            lam = None
+            if not fs or rng.random() < 0.4:
+                lam = self.gen_lambda(1, local, MAXLEVEL - 1, allow_cap=False, defining=defining)
+            if lam is not None:
+                leaf, lev = lam           # a closure that only ever lives in the holder
+                self.stats["holder_literal_closure"] += 1
+            elif fs:
+                n = rng.choice(fs)
+                leaf, lev = ["glob", n], self.lvl(n, local)
+            else:
+                leaf, lev = ["lam", 1, [], None, False], 0
+            self.unit_paths[defining] = path
+            self.stats["holder_define"] += 1
+            return self.wrap(path, leaf), lev
         arity = 1 if kind == "f" else 0
         for _ in range(5):
             r = self.gen_lambda(arity, local, MAXLEVEL, force_first_global=(rng.random() < 0.35), defining=defining)
             if r is not None:
                 return r
-        return ["lam", arity, [], None], 0
+        return ["lam", arity, [], None, False], 0
 
     def gen_top_expr(self):
         rng = self.rng
         r = rng.random()
         fs, ts, xs, ps = self.assigned("f"), self.assigned("t"), self.assigned("x") + self.assigned("j"), self.assigned("p")
+        hold = self.holders()
+        if hold and rng.random() < 0.2:
+            n = rng.choice(sorted(hold))
+            path, lv = hold[n]
+            mut = [i for i, k in enumerate(path) if k in MUTABLE]
+            if mut and rng.random() < 0.4:
+                i = mut[-1]
+                cands = [f for f in fs if self.level.get(self.o.env[f].id, 0) <= lv]
+                lam = None if (cands and rng.random() < 0.5) else self.gen_lambda(1, {}, lv, allow_cap=False)
+                leaf = lam[0] if lam is not None else (["glob", rng.choice(cands)] if cands else ["lam", 1, [], None, False])
+                self.stats["holder_assign"] += 1
+                return ["setcell", path[i] == "vec", self.access(path[:i], ["glob", n]), self.wrap(path[i + 1:], leaf)]
+            self.stats["holder_call"] += 1
+            return ["call", self.access(path, ["glob", n]), rng.randrange(1000), False]
         if r < 0.3 and fs:
             return ["call", ["glob", rng.choice(fs)], rng.randrange(1000), False]
         if r < 0.45 and ts:
@@ -942,6 +1167,8 @@ class Gen:
             if isinstance(v, tuple) and isinstance(v[0], Clo):
                 es.append(["call", ["car", ["glob", n]], 5, False])
             es.append(["cdr", ["glob", n]])
+        for n, (path, _) in sorted(self.holders().items()):
+            es.append(["call", self.access(path, ["glob", n]), 6, False])
         for n in self.assigned("x") + self.assigned("j"):
             es.append(["glob", n])
         self.stats["probe"] += 1
@@ -957,12 +1184,13 @@ class Gen:
         rng = self.rng
         forms = []
         local = {}
+        self.unit_paths = {}
         used0 = set()      # names referenced outside lambda bodies so far in this unit
         nforms = rng.choice([1, 1, 1, 2, 2, 3, 4])
         for _ in range(nforms):
             r = rng.random()
             if r < 0.7:
-                kind = rng.choice("xxxfffttpj")
+                kind = rng.choice("xxxfffttpjbb")
                 name = self.pick_name(kind, 0.6)
                 # a name already referenced at top level of this unit is not (re)defined later in it: the engine then
                 # either rejects the unit or constant-propagates the later value backwards (outside this property)
@@ -1015,6 +1243,8 @@ class Gen:
             for n, b in self.o.last_defs.items():      # empty when the unit did not compile
                 if n in local:
                     self.level[b.id] = local[n][1]
+                    if n in self.unit_paths:
+                        self.hpath[b.id] = self.unit_paths[n]
         # set! of a function binding keeps the binding's level (callees were chosen below it)
 
     def run(self):
@@ -1316,6 +1546,46 @@ def corpus_histories():
     return out
 
 
+def holder_history(path=(), hc=False, second_round=True):
+    """The referrer closure is reachable ONLY through mutable heap state: held in a holder of shape `path` that a
+    global names, and/or captured through a heap-allocated (assigned) variable.  Chain: holder -> old f1 -> old f0
+    -> old x0; then f1, f0, x0 are redefined, >100 shadowings, fresh defines take the freed slots, and the old
+    closure is called through the holder."""
+    path = list(path)
+    h = [U(["def", "x0", ["const", 1]]),
+         U(["def", "f0", ["lam", 1, [["read", "x0"], ["set", "x0", None]], None, False]]),
+         U(["def", "f1", ["lam", 1, [["call", "f0", None, False]], None, False]])]
+    held = Gen.wrap(path, ["glob", "f1"])
+    if hc:
+        h.append(U(["def", "f2", ["lam", 1, [["cap", None, [HOLDER_ACCESS[k] for k in path]]], held, True]]))
+        probe = ["call", ["glob", "f2"], 7, False]
+    else:
+        h.append(U(["def", "b0", held]))
+        probe = ["call", Gen.access(path, ["glob", "b0"]), 7, False]
+    h += [U(["def", "f1", ["const", 11]]), U(["def", "f0", ["const", 12]]), U(["def", "x0", ["const", 13]])]
+    h += [U(["def", "j0", ["const", i]]) for i in range(120)]
+    h += [U(["expr", probe])]
+    h += [U(["def", "x%d" % (100 + i), ["const", i]]) for i in range(150)]
+    h += [U(["expr", probe]), U(["expr", ["list", [["glob", "x%d" % (100 + i)] for i in range(150)]]])]
+    if second_round:
+        h += [U(["def", "j0", ["const", i]]) for i in range(230)]
+        h += [U(["def", "x%d" % (300 + i), ["const", i]]) for i in range(240)]
+        h += [U(["expr", probe]), U(["expr", ["list", [["glob", "x%d" % (300 + i)] for i in range(240)]]]),
+              U(["expr", ["list", [["glob", "x0"], ["glob", "f0"], ["glob", "f1"]]]])]
+    return h
+
+
+def holder_corpus():
+    return {
+        "heap-only-box": holder_history(["box"]),
+        "heap-only-vector": holder_history(["vec"], second_round=False),
+        "heap-only-struct": holder_history(["struct"], second_round=False),
+        "heap-only-nested-vector-box-struct": holder_history(["vec", "box", "struct"], second_round=False),
+        "heap-only-assigned-captured-variable": holder_history([], hc=True),
+        "heap-only-captured-variable-holding-vector-box": holder_history(["vec", "box"], hc=True, second_round=False),
+    }
+
+
 def synth_sources(op, storm=None):
     """A history (Steel source units) whose only reference to a shadowed binding is an instruction with op code
     `op`, long enough for two recycling rounds; returns (units, {unit index: expected outcome})."""
@@ -1448,6 +1718,7 @@ def run(ck):
 
     # ---- corpus first
     corp = corpus_histories()
+    corp.update(holder_corpus())
     cdir = os.path.join(os.path.dirname(os.path.dirname(os.path.abspath(__file__))), "corpus", "c06")
     for p in sorted(os.listdir(cdir)) if os.path.isdir(cdir) else []:
         if p.endswith(".json"):
